@@ -3,9 +3,13 @@ package c03
 import (
 	"bytes"
 	"fmt"
+	"runtime"
 	"sort"
+	"strconv"
+	"sync"
 
 	"github.com/uber/kraken/lib/torrent/storage"
+	"github.com/uber/kraken/lib/torrent/storage/agentstorage"
 	"pgregory.net/rapid"
 
 	"verif/internal/pbt"
@@ -18,6 +22,8 @@ const (
 	kRelease = "r" // release the Which-th held writer and wait for its result
 	kReopen  = "o" // drop the Torrent and CreateTorrent again (only while no writer is in flight)
 	kProbe   = "p" // HasPiece / GetPieceReader / PieceLength of an arbitrary index
+	kPark    = "k" // WritePiece on its own goroutine, parked after it found the piece writable and before it claims it (verif scheduling point)
+	kUnpark  = "u" // let the Which-th parked writer go on and wait for its result
 )
 
 type Step struct {
@@ -97,8 +103,13 @@ func genNoise(t *rapid.T, l Layout) Step {
 	case k < 8:
 		return Step{Kind: kHold, Index: genIndexCode(t, n), Mode: genMode(t), Arg: rapid.IntRange(0, 4096).Draw(t, "arg"),
 			Pre: rapid.IntRange(0, l.PieceLen).Draw(t, "pre")}
-	case k < 12:
+	case k < 11:
 		return Step{Kind: kRelease, Which: rapid.IntRange(0, 3).Draw(t, "which")}
+	case k < 12:
+		if rapid.Bool().Draw(t, "park") {
+			return Step{Kind: kPark, Index: genIndexCode(t, n), Mode: genMode(t), Arg: rapid.IntRange(0, 4096).Draw(t, "arg")}
+		}
+		return Step{Kind: kUnpark, Which: rapid.IntRange(0, 3).Draw(t, "which")}
 	case k < 14:
 		return Step{Kind: kReopen}
 	default:
@@ -129,12 +140,22 @@ func genCase(t *rapid.T) Case {
 			}
 			c.Steps = append(c.Steps, bad)
 		}
+		// One piece in four is delivered twice at the same moment (the end of a download):
+		// a second writer has found the piece writable and is parked before it claims it,
+		// the first one writes the piece, then the second one goes on.
+		dup := rapid.IntRange(0, 3).Draw(t, "duplicate") == 0
+		if dup {
+			c.Steps = append(c.Steps, Step{Kind: kPark, Index: pi, Mode: rapid.SampledFrom([]int{mCorrect, mCorrect, mCorrect, mFlip}).Draw(t, "dup_mode"), Arg: rapid.IntRange(0, 4096).Draw(t, "arg")})
+		}
 		st := Step{Kind: kWrite, Index: pi}
 		if rapid.IntRange(0, 2).Draw(t, "held") == 0 {
 			st.Kind = kHold
 			st.Pre = rapid.IntRange(0, c.PieceLen).Draw(t, "pre")
 		}
 		c.Steps = append(c.Steps, st)
+		if dup && rapid.IntRange(0, 3).Draw(t, "unpark_now") != 0 {
+			c.Steps = append(c.Steps, Step{Kind: kUnpark})
+		}
 	}
 	for k := rapid.IntRange(0, 5).Draw(t, "tail"); k > 0; k-- {
 		c.Steps = append(c.Steps, genNoise(t, c.Layout))
@@ -177,6 +198,9 @@ type writer struct {
 	expect  int
 	claimed bool // model marked the piece dirty for this writer
 	done    chan callResult
+	// parked writers
+	atPoint chan struct{}
+	goOn    chan struct{}
 }
 
 type histRun struct {
@@ -188,6 +212,10 @@ type histRun struct {
 	com bool  // model: committed
 	// held writers in issue order
 	held []*writer
+	// writers parked before their claim of the piece, in issue order
+	parked []*writer
+	mu     sync.Mutex
+	byG    map[uint64]*writer
 	// statistics
 	cls            map[string]bool
 	rejectedOnOpen map[int]bool // pieces that had a payload-rejected write
@@ -453,6 +481,80 @@ func (h *histRun) startWriter(i int, s Step, gated bool) (*writer, string) {
 	}
 }
 
+func goid() uint64 {
+	var buf [64]byte
+	n := runtime.Stack(buf[:], false)
+	f := bytes.Fields(buf[:n])
+	if len(f) < 2 {
+		return 0
+	}
+	id, _ := strconv.ParseUint(string(f[1]), 10, 64)
+	return id
+}
+
+// yield is the verif scheduling-point callback: a writer started by a park step stops here.
+func (h *histRun) yield(point string, pi int) {
+	if point != "writePiece.beforeClaim" {
+		return
+	}
+	h.mu.Lock()
+	w := h.byG[goid()]
+	h.mu.Unlock()
+	if w == nil {
+		return
+	}
+	w.atPoint <- struct{}{}
+	<-w.goOn
+}
+
+// startParked starts a write that parks after WritePiece found the piece writable and
+// before it claims it. A write that is refused earlier returns at once and is judged now;
+// a parked one is judged, against the model state of that moment, when it goes on.
+func (h *histRun) startParked(i int, s Step) string {
+	idx := resolveIndex(s.Index)
+	w := &writer{id: i, step: i, idx: idx, pl: makePayload(h.c.Layout, idx, s.Mode, s.Arg),
+		done: make(chan callResult, 1), atPoint: make(chan struct{}), goOn: make(chan struct{})}
+	w.rd = newReader(w.pl)
+	t := h.t
+	go func() {
+		g := goid()
+		h.mu.Lock()
+		h.byG[g] = w
+		h.mu.Unlock()
+		res := guardedWrite(t, w.rd, idx)
+		h.mu.Lock()
+		delete(h.byG, g)
+		h.mu.Unlock()
+		w.done <- res
+	}()
+	select {
+	case <-w.atPoint:
+		h.parked = append(h.parked, w)
+		h.class("writer-parked-before-claim")
+		return ""
+	case res := <-w.done:
+		h.issue(w)
+		if w.expect == exAcceptGood || w.expect == exRejectBad {
+			return fmt.Sprintf("a write to a writable piece returned before it could claim the piece\n  %s returned %s", h.describe(w), res)
+		}
+		return h.settle(w, res)
+	}
+}
+
+func (h *histRun) unparkAt(k int) string {
+	w := h.parked[k]
+	h.parked = append(h.parked[:k:k], h.parked[k+1:]...)
+	h.issue(w) // what must happen now, given what happened to the piece while the writer was parked
+	switch w.expect {
+	case exComplete:
+		h.class("parked-writer-finds-piece-complete")
+	case exConflict:
+		h.class("parked-writer-finds-piece-being-written")
+	}
+	close(w.goOn)
+	return h.settle(w, <-w.done)
+}
+
 func (h *histRun) releaseAt(k int) string {
 	w := h.held[k]
 	h.held = append(h.held[:k:k], h.held[k+1:]...)
@@ -462,6 +564,11 @@ func (h *histRun) releaseAt(k int) string {
 }
 
 func (h *histRun) drainAll() {
+	for _, w := range h.parked {
+		close(w.goOn)
+		<-w.done
+	}
+	h.parked = nil
 	for _, w := range h.held {
 		close(w.rd.release)
 		<-w.done
@@ -476,7 +583,7 @@ func runCase(c Case) pbt.Verdict {
 	l := c.Layout
 	// CRC collisions cannot be judged (never seen; 2^-32 per payload).
 	for _, s := range c.Steps {
-		if s.Kind == kWrite || s.Kind == kHold {
+		if s.Kind == kWrite || s.Kind == kHold || s.Kind == kPark {
 			idx := resolveIndex(s.Index)
 			if makePayload(l, idx, s.Mode, s.Arg).collides(l, idx) {
 				return pbt.Verdict{Discard: true, Classes: []string{"crc-collision"}}
@@ -488,7 +595,9 @@ func runCase(c Case) pbt.Verdict {
 		return pbt.Verdict{Discard: true, Classes: []string{"setup-error"}}
 	}
 	defer a.close()
-	h := &histRun{c: c, a: a, n: l.n(), st: make([]int, l.n()), cls: map[string]bool{}, rejectedOnOpen: map[int]bool{}}
+	h := &histRun{c: c, a: a, n: l.n(), st: make([]int, l.n()), cls: map[string]bool{}, rejectedOnOpen: map[int]bool{}, byG: map[uint64]*writer{}}
+	agentstorage.VerifSetYield(h.yield)
+	defer agentstorage.VerifSetYield(nil)
 	defer h.drainAll()
 	h.com = h.n == 0 // an empty blob has nothing to verify
 	h.t, err = a.archive.CreateTorrent("ns", a.digest)
@@ -519,8 +628,20 @@ func runCase(c Case) pbt.Verdict {
 				continue
 			}
 			msg = h.releaseAt(s.Which % len(h.held))
+		case kPark:
+			if len(h.parked) >= 3 {
+				h.class("skipped-park")
+				continue
+			}
+			msg = h.startParked(i, s)
+		case kUnpark:
+			if len(h.parked) == 0 {
+				h.class("skipped-unpark")
+				continue
+			}
+			msg = h.unparkAt(s.Which % len(h.parked))
 		case kReopen:
-			if len(h.held) > 0 {
+			if len(h.held) > 0 || len(h.parked) > 0 {
 				h.class("skipped-reopen")
 				continue
 			}
@@ -567,7 +688,15 @@ func runCase(c Case) pbt.Verdict {
 	if h.com && commitStep >= 0 && commitStep < len(c.Steps)-1 && h.n > 0 {
 		h.class("commit-mid-history")
 	}
-	// Epilogue: let every held writer finish, then write what is still missing.
+	// Epilogue: let every parked and held writer finish, then write what is still missing.
+	for len(h.parked) > 0 {
+		if msg := h.unparkAt(0); msg != "" {
+			return pbt.Fail("%s", msg)
+		}
+		if msg := h.check("epilogue, after letting a parked writer go on"); msg != "" {
+			return pbt.Fail("%s", msg)
+		}
+	}
 	for len(h.held) > 0 {
 		k := 0
 		if c.DrainReverse {
